@@ -33,6 +33,14 @@ MENUS = {
     'state': M('state', ('ATTR', 'SUB', 'RATTR', 'RSUB', 'AUG', 'TUP', 'DEL', 'R', 'brk', 'ret'), ('if', 'while', 'for'),
                for_targets=('xy', 'x'), ret=('x',)),
     'callee': M('callee', ('CALLH', 'RW', 'brk'), ('if', 'while', 'for'), vars_=('x',), for_targets=('i',)),
+    # a local function reached through an alias / through another local function; captures two levels down
+    'alias': M('alias', ('W', 'DEFR', 'ALIAS', 'CALLK'), ('if', 'while'), vars_=('x',), ret=('x',)),
+    'trans': M('trans', ('W', 'DEFW', 'DEFT', 'CALLT'), ('if', 'while'), vars_=('x',), ret=('x',)),
+    'deep': M('deep', ('W', 'RW', 'DEF2R', 'DEF2W', 'CALL'), ('if', 'while', 'for'), vars_=('x',), for_targets=('i',), ret=('x',)),
+    # functools.partial with a bound keyword, called with and without a further call-site keyword
+    'partial': M('partial', ('MKP', 'CALLP', 'CALLP0', 'brk'), ('if', 'while'), vars_=('x',)),
+    # nested / starred loop targets
+    'targets': M('targets', ('RW', 'R', 'brk'), ('if', 'for'), for_targets=('nest', 'star'), ret=('x',)),
     'glob': M('glob', ('W', 'RW', 'R', 'brk', 'ret'), ('if', 'while', 'for'), vars_=('G',), for_targets=('i', 'G'), ret=('G',)),
 }
 
@@ -63,6 +71,11 @@ PLAN = {
         ('state', 3, (('x', 'y'),), (('x', 'y'),)),
         ('callee', 3, (('x',),), (('x',),)),
         ('glob', 3, ((), ('G',)), (('G',),)),
+        ('alias', 4, (('x',),), ((),)),
+        ('trans', 4, (('x',),), ((),)),
+        ('deep', 3, (('x',),), ((), ('x',))),
+        ('partial', 4, (('x',),), (('x',),)),
+        ('targets', 3, (('x', 'y'),), (('x', 'y'), ())),
     ],
     'thorough': [
         ('core', 3, ALL_PRO, ALL_EPI),
@@ -74,6 +87,11 @@ PLAN = {
         ('state', 4, (('x', 'y'),), (('x', 'y'),)),
         ('callee', 4, (('x',),), (('x',),)),
         ('glob', 4, ((), ('G',)), (('G',),)),
+        ('alias', 5, (('x',),), ((), ('x',))),
+        ('trans', 5, (('x',),), ((), ('x',))),
+        ('deep', 4, (('x',), ()), ((), ('x',))),
+        ('partial', 5, (('x',),), (('x',),)),
+        ('targets', 4, (('x', 'y'), ()), (('x', 'y'), ())),
     ],
 }
 CAP = {'quick': 6, 'thorough': 7}
@@ -115,7 +133,7 @@ def item_source(item):
   name, body, pro, epi, idx = item
   menu = MENUS[name]
   pro = tuple(v for v in pro if v in menu.vars or v in ('x', 'y') and name != 'glob')
-  return ps.source(body, pro=pro, epi=epi, pid=idx + 1000, declare_global=(name == 'glob'), helpers=(name == 'callee'))
+  return ps.source(body, pro=pro, epi=epi, pid=idx + 1000, declare_global=(name == 'glob'), helpers=(name in ('callee', 'partial')))
 
 
 def item_configs(item, tier):
@@ -172,7 +190,7 @@ def run_reduced(name, body, pro, epi, cfg):
   except SyntaxError:
     return None
   try:
-    viol, _, _, _, _ = run_program(src, 'red', [cfg], CAP['quick'], DEV['quick'])
+    viol, _, _, _, _ = run_program(src, 'red', [cfg], CAP[_S['tier']], DEV[_S['tier']])
   except tapemod.TapeError:
     return None
   return viol[0] if viol else None
@@ -202,10 +220,45 @@ def reduce_witness(item, cfg, kind):
   return body, pro, epi, best
 
 
+def _subst_kind(body, old, new):
+  out = []
+  for st in body:
+    if st[0] == old:
+      out.append((new,) + tuple(st[1:]))
+    else:
+      out.append(tuple(_subst_kind(p, old, new) if isinstance(p, tuple) and p and isinstance(p[0], tuple) else p for p in st))
+  return tuple(out)
+
+
+def _has_kind_deep(body, kinds):
+  for st in body:
+    if st[0] in kinds:
+      return True
+    for p in st[1:]:
+      if isinstance(p, tuple) and p and isinstance(p[0], tuple) and _has_kind_deep(p, kinds):
+        return True
+  return False
+
+
+def lambda_liveness_class(name, rb, rp, re_, cfg):
+  """Known root cause (liveness.Analyzer.lamba_check: "lambda functions are assumed to be used only in the place where
+  they are defined"): recognised on the 1-minimal witness by (a) it binds a lambda to a name, (b) it still needs a
+  control-flow statement (a lambda that is converted wrongly as such reduces to `g = lambda: ...; g()`), and (c) the
+  same program with `def g(): return ...` in place of the lambda shows no difference."""
+  if not _has_kind_deep(rb, ('LAM',)) or not _has_kind_deep(rb, ('if', 'while', 'for')):
+    return False
+  return run_reduced(name, _subst_kind(rb, 'LAM', 'DEFR'), rp, re_, cfg) is None
+
+
 def check(item):
   tier = _S['tier']
   name, body, pro, epi, idx = item
   src = item_source(item)
+  try:
+    compile(src, '<item>', 'exec')
+  except SyntaxError:
+    # e.g. `nonlocal x` in a local function when the program never binds x
+    return {'viol': [], 'n': {'invalid_programs_skipped': 1}}
   configs = item_configs(item, tier)
   viol, nexec, ncap, outcomes, trunc = run_program(src, idx, configs, CAP[tier], DEV[tier])
   out = []
@@ -216,7 +269,10 @@ def check(item):
     seen_kinds.add(kind)
     rb, rp, re_, rv = reduce_witness(item, cfg, kind)
     rsrc = item_source((name, rb, rp, re_, -1000))
-    if rv is not None:
+    if rv is not None and lambda_liveness_class(name, rb, rp, re_, cfg):
+      sig = 'lambda-bound-to-a-name-and-called-after-control-flow-that-rebinds-its-captured-variable'
+      rtape = list(rv[3])
+    elif rv is not None:
       sig = '%s|%s|%s|pro=%s|epi=%s|%s' % (kind, name, ps.skeleton(rb), ''.join(rp), ''.join(re_), rv[1])
       rtape = list(rv[3])
     else:
